@@ -377,6 +377,11 @@ func genHistory(out *Out, r *Rng, c *ACred, vc *verifiable.W3CCredential, root *
 	var calls []any
 	var results []any
 	both := &mapLoader{docs: map[string][]byte{vcCtxURL: []byte(vcCtx), c.TypeURL: c.typeContext(), c2.TypeURL: c2.typeContext()}}
+	for _, x := range []*ACred{c, c2} {
+		if x.SingleContext {
+			both.docs[x.bundleURL()] = x.bundleContext()
+		}
+	}
 	merklize.SetDocumentLoader(both)
 	for k := 0; k < ncalls; k++ {
 		oi := r.Intn(2)
